@@ -382,6 +382,23 @@ def processConc (h : Hist) (b : Block) (otoks : List String) : Hist :=
                  concViol := h.concViol.push ("C07", "registry-model-unreachable",
                    (" ".intercalate b.ev) ++ s!" :: the handlers ended in {reprStr impl}; the model of the registry's critical sections reaches, from the same state, only {reprStr outs}") }
     | _, _ => h
+  -- C16 under concurrency: of the actions of one entity and name accepted within the block, the server keeps one with the
+  -- latest timestamp (the entity being still there)
+  let h := match parseConc b.ev with
+    | none => h
+    | some tasks =>
+      let accepted := tasks.filterMap fun (t : Nat × Option Req) =>
+        match t.2 with
+        | some (.action rid _ (some a)) => if (inboxOf t.1 b.ds).contains (.actionResp rid) then some a else none
+        | _ => none
+      let kept : List Action := (b.ghost.filterMap fun (g : Nat × List String) =>
+        match parseAll out g.2 with | some (.vikjaState a) => some a | _ => none).flatten
+      let hasVikja := b.ghost.any fun (g : Nat × List String) => match parseAll out g.2 with | some (.vikjaState _) => true | _ => false
+      let older := accepted.filter fun a =>
+        kept.any fun k => k.eid == a.eid && k.name == a.name && Spec.actionOlder k a
+      if !hasVikja || older.isEmpty then h else
+        { h with concViol := h.concViol.push ("C16", "older-action-kept",
+            flatS s!"{" ".intercalate b.ev} :: accepted within the block: {reprStr accepted}; the server keeps {reprStr (kept.filter fun k => older.any fun a => a.eid == k.eid && a.name == k.name)}") }
   match parseConc b.ev with
   | none => { h with diff := some s!"event={evNo} kind=parse topic=conc :: cannot parse {b.ev}" }
   | some tasks =>
@@ -407,7 +424,47 @@ def processConc (h : Hist) (b : Block) (otoks : List String) : Hist :=
             if ms != b.sessions then (order, none, s!"sessions {ms} vs {b.sessions}")
             else if srv'.gauge != b.gauge then (order, none, s!"gauge {srv'.gauge} vs {b.gauge}")
             else (order, some (srv', steps), "")
-    match tries.findSome? fun t => t.2.1 with
+    -- of the orders that explain the deliveries, one that also explains the state afterwards is preferred
+    let stateOk (srv' : Server) : Bool := b.ghost.isEmpty || (ghostDiff srv' b.ghost).isNone
+    let explained := (tries.findSome? fun t => match t.2.1 with | some (srv', st) => if stateOk srv' then some (srv', st) else none | none => none)
+      <|> (tries.findSome? fun t => t.2.1)
+    -- two requests of the block write the same item (a component, an entity's action of one name): the writes are applied
+    -- in one order and relayed outside the lock that orders them, so that the relays may reach a member in the other
+    let itemOf (r : Option Req) : Option (Nat × Nat × String) := match r with
+      | some (.compAdd _ _ tid eid _) | some (.compUpdate _ tid eid _) | some (.compDelete _ _ tid eid) => some (tid + 1, eid, "")
+      | some (.action _ _ (some a)) => some (0, a.eid, a.name)
+      | _ => none
+    let items := tasks.filterMap fun (t : Nat × Option Req) => itemOf t.2
+    let sameItem := items.eraseDups.length != items.length
+    let fully := tries.any fun t => match t.2.1 with | some (srv', _) => stateOk srv' | none => false
+    let byState : Option (Server × List (IEv × List Delivery × Outcome)) :=
+      if !sameItem || fully || b.ghost.isEmpty then none else
+      (perms3 tagged).findSome? fun order =>
+        match serialRun h.cfg h.srv b.ds (order.map Prod.fst) with
+        | .error _ => none
+        | .ok (srv', steps) =>
+          let outsOk := (order.zip steps).all fun (x : ((Nat × Option Req) × String) × (IEv × List Delivery × Outcome)) => outcomeTok x.2.2.2 == x.1.2
+          let ms := sortNat (srv'.sessions.map fun (x : Session) => x.id)
+          if outsOk && ms == b.sessions && srv'.gauge == b.gauge && (ghostDiff srv' b.ghost).isNone then some (srv', steps) else none
+    match byState with
+    | some (srv', steps) =>
+      -- the state is that of a serial order, the relays are not: recorded (F26), the members of the sessions concerned
+      -- are not followed any further (what they hold now depends on the order the relays reached them in)
+      let detail := flatS s!"{" ".intercalate b.ev} :: the server's state afterwards is that of the requests handled one after the other in some order, what the members were sent is not: {"; ".intercalate (tries.map fun t => t.2.2)}"
+      let touched := (tasks.filterMap fun (t : Nat × Option Req) => (h.srv.locate t.1).map fun x => x.1.parts.map (·.conn)).flatten.eraseDups
+      let (_, h) := steps.foldl (fun (acc : Server × Hist) (st : IEv × List Delivery × Outcome) =>
+        let (cur, h) := acc
+        match toModelEvent cur st.1 with
+        | .ok ev =>
+          let nxt := (step h.cfg cur ev).1
+          let is : IStep := ⟨st.1, st.2.1, st.2.2, sortNat (nxt.sessions.map fun (x : Session) => x.id), nxt.gauge, []⟩
+          (nxt, { h with steps := h.steps.push is })
+        | .error _ => (cur, h)) (h.srv, h)
+      { h with srv := srv',
+               vsteps := h.vsteps.push ⟨.conc (touched.map fun c => (c, some hangup)), [], .ok, b.sessions, b.gauge, []⟩,
+               concViol := h.concViol.push ("C01", "concurrent-writers-relay-order", detail) }
+    | none =>
+    match explained with
     | some (srv', steps) =>
       -- continue as if the requests had been handled in that order
       -- the registry after each step is the model's (the implementation's is known for the end of the block only)
